@@ -34,14 +34,16 @@ Proof.
     + rewrite Nat2N.inj_succ, N.pow_succ_r' in H.
       assert (Hq : n / 10 < 10 ^ N.of_nat f1) by (apply N.div_lt_upper_bound; lia).
       subst f1. destruct (IH (n / 10) acc Hq) as (V & F & NE).
-      assert (Hm : n mod 10 < 10) by (apply N.mod_upper_bound; lia).
-      assert (D : is_digit (48 + n mod 10) = true) by (apply is_digit_spec; lia).
+      assert (Hm : n mod 10 < 10) by (apply N.mod_upper_bound; discriminate).
+      pose proof (N.div_mod n 10 ltac:(discriminate)) as Hdm.
+      remember (n / 10) as q. remember (n mod 10) as m. clear H Hq Heqq Heqm IH.
+      assert (D : is_digit (48 + m) = true) by (apply is_digit_spec; lia).
       split; [|split].
       * rewrite digits_val_app, V. cbn [digits_val]. rewrite D. f_equal.
         rewrite app_length. cbn [length]. rewrite Nat.add_1_r, Nat2N.inj_succ, N.pow_succ_r'.
-        pose proof (N.div_mod n 10). lia.
+        remember (10 ^ N.of_nat (length (dec_digits (S f) q))) as P. lia.
       * apply Forall_app. split; [exact F|repeat constructor; exact D].
-      * destruct (dec_digits (S f) (n / 10)); discriminate.
+      * destruct (dec_digits (S f) q); discriminate.
 Qed.
 
 Definition TEN20 : N := 100000000000000000000.
